@@ -1008,7 +1008,28 @@ class Interp:
         return self.lookup_name(ctx, node.id, env)
 
     def e_JoinedStr(self, ctx, node, env):
-        return VStr("<fstring>")
+        """f-strings: concrete when every interpolated value is a concrete str / int / bool (attribute and buffer names such as
+        f"grid_{i}"); otherwise an opaque text (messages of exceptions and warnings -- never used as a name)"""
+        parts = []
+        for v in node.values:
+            if isinstance(v, ast.Constant):
+                parts.append(str(v.value))
+                continue
+            if not isinstance(v, ast.FormattedValue) or v.format_spec is not None or v.conversion not in (-1, 115):
+                return VStr("<fstring>")
+            try:
+                val = self.eval(ctx, v.value, env)
+            except (PyRaise, Undecided):
+                return VStr("<fstring>")
+            if isinstance(val, VStr):
+                parts.append(val.s)
+            elif isinstance(val, VBool) and val.concrete() is not None:
+                parts.append(str(bool(val.concrete())))
+            elif isinstance(val, VNum) and val.is_int and val.concrete() is not None:
+                parts.append(str(int(val.concrete())))
+            else:
+                return VStr("<fstring>")
+        return VStr("".join(parts))
 
     def e_Tuple(self, ctx, node, env):
         return VTuple(self._elts(ctx, node.elts, env))
